@@ -247,6 +247,18 @@ theorem statements_order_irrelevant (env : Env) (rowOf : Nat → Row) (ps qs : L
   program_order_irrelevant env rowOf (expand ps) (expand qs) hn hp hd
     (by simpa [expand] using hperm.flatMap_right (·.acts)) hinst hkeep p s
 
+/-- **`package_travels_with_statement`** — programs spread over several packages.  A statement records the package of
+the configurator that issued it (`Stmt.pkg`); its meaning (its actions, their discriminators, footprints and
+semantics) was fixed from (arguments, package, route prefix) when it was issued.  The declared action list of a
+program depends on the statements' packages only through those actions, so every theorem above about `expand ps`
+— in particular `statements_order_irrelevant`: any permutation of the statements, hence any order of the includes of
+different packages, any nesting — holds verbatim for multi-package programs; no action's meaning may depend on which
+OTHER statement was issued first (the seeded change C08-6, one renderer helper per renderer name carrying the package
+of the first statement that named it, breaks exactly this on the real code and is caught by the harness). -/
+theorem package_travels_with_statement (ps : List Stmt) (f : Stmt → Nat) :
+    expand (ps.map fun s => { s with pkg := f s }) = expand ps := by
+  simp [expand, List.flatMap_map]
+
 /-- the footprints the driver computes (`instReads` / `instWrites` with the free semantics) are instances of
 their rows, so the theorems above speak about exactly what `drv_c08` prints -/
 theorem inst_herbrand (r : Row) (a : Act) (args : List Slot) (hph : r.phase = some a.order)
